@@ -399,7 +399,7 @@ func emitScale(c *Config, in *input, sh *scaleHist, model bool) {
 	rs := h.Sx()
 	rs.List[0] = A("rhist")
 	c.Emit(T("kind", A(in.kind)), T("nt", B(h.N >= 3 && killed)), T("g", I(in.g)), T("s", I(in.s)), T("files", B(in.files)),
-		T("people", B(in.people)), T("hib", I(in.hib)), T("hibmode", A(in.hibmode)), T("thr", I(in.thr)),
+		T("people", B(in.people)), T("hib", I(in.hib)), T("hibmode", A(in.hibmode)), T("thr", I(in.thr)), T("reuse", B(in.reuse)),
 		T("scale", I(1)), T("model", B(model)), secsSx(sh.secs), rs, T("obs", obs))
 }
 
@@ -410,6 +410,7 @@ func scaleParams(rng *rand.Rand, in *input, hib int) {
 	gi := rng.Intn(len(bandChoices))
 	in.g = bandChoices[gi]
 	in.s = bandChoices[rng.Intn(gi+1)]
+	in.reuse = rng.Intn(6) == 0
 	in.hibmode = "none"
 	in.hib = hib
 	if hib > 0 {
@@ -610,7 +611,7 @@ func genLinScale(rng *rand.Rand, n, bigLines, bigPr, span int, backwards bool) [
 		return b
 	}
 	files := map[string]*file{}
-	names := []string{"a", "b", "c", "d", "e"}
+	names := []string{"a", "b", "c", "d", "e", "f", "g", "h"} // about five of them exist at a time: a rename finds a free name
 	var steps []dstep
 	day := 0
 	tick := 0
@@ -631,9 +632,21 @@ func genLinScale(rng *rand.Rand, n, bigLines, bigPr, span int, backwards bool) [
 			}
 			f, ok := files[nm]
 			switch {
+			case !ok && len(files) >= 5 && rng.Intn(4) > 0:
+				// enough files
 			case !ok:
+				// a new file, also on a path deleted or renamed away earlier (or in this very step): a few lines, now and
+				// then no byte at all, a third of them above the 32 bytes below which RenameAnalysis does not pair blobs
 				f = &file{}
-				f.lines = editLines(rng, nil, false, false)
+				switch rng.Intn(6) {
+				case 0:
+				case 1, 2:
+					for i := 12 + rng.Intn(20); i > 0; i-- {
+						f.lines = append(f.lines, fmt.Sprintf("w%d\n", rng.Intn(6)))
+					}
+				default:
+					f.lines = editLines(rng, nil, false, false)
+				}
 				files[nm] = f
 				st.set[nm] = render(f)
 			case nm != "big" && rng.Intn(12) == 0:
@@ -642,13 +655,24 @@ func genLinScale(rng *rand.Rand, n, bigLines, bigPr, span int, backwards bool) [
 				st.del = append(st.del, nm)
 			case nm != "big" && rng.Intn(10) == 0:
 				nn := names[rng.Intn(len(names))]
-				if _, ex := files[nn]; !ex { // rename
+				if _, ex := files[nn]; !ex { // rename, in a third of the cases together with a binary flip and / or an edit
+					if rng.Intn(3) == 0 {
+						if rng.Intn(3) > 0 {
+							f.binary = !f.binary
+						}
+						if rng.Intn(2) == 0 {
+							f.lines = editLines(rng, f.lines, false, false)
+						}
+					}
 					files[nn] = f
 					delete(files, nm)
 					delete(st.set, nm)
 					st.del = append(st.del, nm)
 					st.set[nn] = render(f)
 				}
+			case nm != "big" && rng.Intn(25) == 0: // becomes an empty file
+				f.lines, f.binary = nil, false
+				st.set[nm] = render(f)
 			case rng.Intn(10) == 0: // becomes binary / becomes text again
 				f.binary = !f.binary
 				st.set[nm] = render(f)
@@ -773,7 +797,7 @@ func emitLinScale(c *Config, in *input, steps []dstep) {
 	in.light = true
 	obs := runPipeline(in, repo, commits)
 	c.Emit(T("kind", A(in.kind)), T("nt", B(len(steps) >= 3)), T("g", I(in.g)), T("s", I(in.s)), T("files", B(in.files)),
-		T("people", B(in.people)), T("hib", I(in.hib)), T("hibmode", A(in.hibmode)), T("thr", I(in.thr)),
+		T("people", B(in.people)), T("hib", I(in.hib)), T("hibmode", A(in.hibmode)), T("thr", I(in.thr)), T("reuse", B(in.reuse)),
 		T("scale", I(1)), dlinearSx(steps), T("obs", obs))
 }
 
